@@ -371,6 +371,13 @@ func (g *gen) structField(depth int) int {
 		use = g.addType(&Type{Kind: KPtr, Base: st})
 	}
 	g.newProv(depth+1, use)
+	if !g.o.Wire && use == st && g.budget > 0 && g.r.Intn(4) == 0 {
+		// the pointer form of the expanded value struct has a provider of its own
+		// (it may or may not be needed); Struct[S] still expands the supplier of S
+		pt := g.addType(&Type{Kind: KPtr, Base: st})
+		g.newProv(depth+1, pt)
+		g.feature("struct-expansion-with-separate-pointer-provider")
+	}
 	sp := &Prov{Kind: PStruct, Results: []int{use}}
 	if g.r.Intn(6) == 0 && !g.o.Wire {
 		sp.Async = true // Async(Struct[T]()) has no effect on semantics
@@ -386,7 +393,47 @@ func (g *gen) structField(depth int) int {
 
 // assemble (wire only) creates wire.Struct(new(S), ...): S is built from its
 // fields, which are themselves needed types.
+// extAssemble (wire only): wire.Struct(new(ext.T), "*" | fields) on a struct
+// of a sibling package that has an unexported field tagged wire:"-" in front.
+func (g *gen) extAssemble(depth int) int {
+	e := g.s.ExtPkgs[g.r.Intn(len(g.s.ExtPkgs))]
+	st := g.addType(&Type{Kind: KStruct, Name: g.typeNameIn(e.Dir), Pkg: e.Dir, Base: -1, Pure: true})
+	p := &Prov{Kind: PAssemble}
+	g.addProv(p)
+	g.budget--
+	hid := g.addType(&Type{Kind: KNamedInt, Name: g.typeNameIn(e.Dir), Pkg: e.Dir, Base: -1})
+	name := g.s.Types[st].Name
+	if g.r.Intn(2) == 0 {
+		g.s.Types[st].Fields = append(g.s.Types[st].Fields, Field{Name: "internal" + name, T: hid, Tag: `wire:"-"`})
+	}
+	nf := 1 + g.r.Intn(3)
+	for i := 0; i < nf; i++ {
+		ft := g.addType(&Type{Kind: KNamedInt, Name: g.typeNameIn(e.Dir), Pkg: e.Dir, Base: -1})
+		v := uint64(g.r.Intn(100000) + 1)
+		g.addProv(&Prov{Kind: PValue, ValExpr: fmt.Sprintf("%s(%d)", g.s.Expr(ft, ""), v), ValH: v, Results: []int{ft}})
+		fname := fmt.Sprintf("E%d%s", i, name)
+		g.s.Types[st].Fields = append(g.s.Types[st].Fields, Field{Name: fname, T: ft})
+		p.Params = append(p.Params, ft)
+		p.AsmFields = append(p.AsmFields, fname)
+		if i == 0 && g.r.Intn(3) == 0 {
+			// another excluded unexported field in the middle
+			g.s.Types[st].Fields = append(g.s.Types[st].Fields, Field{Name: "middle" + name, T: hid, Tag: `wire:"-"`})
+		}
+	}
+	if g.r.Intn(3) != 0 {
+		p.AsmFields = []string{"*"}
+	}
+	use := g.addType(&Type{Kind: KPtr, Base: st})
+	p.Results = []int{use}
+	g.feature("wire-struct-of-sibling-package-type")
+	g.done = append(g.done, use)
+	return use
+}
+
 func (g *gen) assemble(depth int) int {
+	if len(g.s.ExtPkgs) > 0 && g.r.Intn(3) == 0 {
+		return g.extAssemble(depth)
+	}
 	st := g.addType(&Type{Kind: KStruct, Name: g.typeName(), Base: -1, Pure: true})
 	p := &Prov{Kind: PAssemble}
 	g.addProv(p)
@@ -853,6 +900,12 @@ func (s *Spec) Clone() *Spec {
 	c.Files = append([]string{}, s.Files...)
 	c.Features = append([]string{}, s.Features...)
 	c.ExtPkgs = append([]ExtPkg{}, s.ExtPkgs...)
+	if s.ExtDecl != nil {
+		c.ExtDecl = map[string]string{}
+		for k, v := range s.ExtDecl {
+			c.ExtDecl[k] = v
+		}
+	}
 	return &c
 }
 
